@@ -1,7 +1,9 @@
 import StarsimModel.Model.Pars
 import StarsimModel.Model.ParsDeep
+import StarsimModel.Model.ParsRefs
+import StarsimModel.Generated.ParsRefs
 import StarsimModel.Model.Proto
-open StarsimModel StarsimModel.Pars StarsimModel.Proto
+open StarsimModel StarsimModel.Pars StarsimModel.Proto StarsimModel.ParsRefs
 
 /-! Line-protocol driver for C17 (Model/Pars.lean).  One operation per line, one canonical line out. -/
 
@@ -130,8 +132,56 @@ def exc {α} (f : α → String) : Except Err α → String
   | .error e => showErr e
   | .ok a => "ok " ++ f a
 
+
+/-- round 3: `scalar:<tok>` | `bad` | `dict:<key>=s=<tok>;<key>=p=<tok>=<tok>;...` (`dict:-` = empty dict) -/
+def parseBeta? (s : String) : Option (Beta Nat) :=
+  if s = "bad" then some .bad else
+  match s.splitOn ":" with
+  | ["scalar", t] => t.toNat?.map .scalar
+  | ["dict", items] =>
+      if items = "-" then some (.dict []) else
+      ((items.splitOn ";").mapM (fun (p : String) =>
+        match p.splitOn "=" with
+        | [k, "s", t] => t.toNat?.map (fun t => (k, Entry.scalar t))
+        | [k, "p", a, b] => do some (k, Entry.pair (← a.toNat?) (← b.toNat?))
+        | _ => none)).map .dict
+  | _ => none
+
+def showServed (m : List (String × Option (Nat × Nat))) : String :=
+  showList (fun (kv : String × Option (Nat × Nat)) =>
+    match kv.2 with
+    | some (a, b) => s!"{kv.1}:{a}/{b}"
+    | none => s!"{kv.1}:none") m
+
+def showDistUpd : DistUpd → String
+  | .made m => s!"made:{m.type}:" ++ showList (fun (kv : String × Nat) => s!"{kv.1}={kv.2}") m.pars
+  | .oldSet ps => "oldSet:" ++ showList (fun (kv : String × Nat) => s!"{kv.1}={kv.2}") ps
+  | .failed e => showErr e
+
+def parseToks? (s : String) : Option (List (String × Nat)) :=
+  if s = "-" then some [] else
+  (s.splitOn ",").mapM (fun (p : String) =>
+    match p.splitOn ":" with
+    | [k, t] => t.toNat?.map (fun t => (k, t))
+    | _ => none)
+
 def stepLine (d : RegData) (line : String) : RegData × String :=
   match words line with
+  | ["betamap", nets, beta] => (d, match parseBeta? beta with
+      | some b =>
+          let ns := if nets = "-" then [] else nets.splitOn ","
+          exc showServed (resolve (stdKey Gen.netkeyLower Gen.netkeySuffix) ⟨Gen.betaMissingRaises, Gen.betaExtraRaises⟩
+            Gen.betaBadType ns b)
+      | none => "bad-op")
+  | ["stdkey", k] => (d, "ok " ++ stdKey Gen.netkeyLower Gen.netkeySuffix k)
+  | ["usetwice", spec] => (d, match parseToks? spec with
+      | some sp =>
+          let r := useTwice ((lookupFlag "make_dist" Gen.argMutated).getD true) sp
+          s!"ok {showDistUpd r.1} {showDistUpd r.2.1} " ++ (if r.2.2 = sp then "unchanged" else "changed")
+      | none => "bad-op")
+  | ["argmutated", fn] => (d, match lookupFlag fn Gen.argMutated with
+      | some b => "ok " ++ showBool b
+      | none => "bad-op")
   | ["isa", "o", o, c] => (d, match parseO? o, parseCls? c with
       | some o, some c => showBool (o.isA c) | _, _ => "bad-op")
   | ["isa", "n", n, c] => (d, match parseN? n, parseCls? c with
